@@ -1,117 +1,135 @@
 import Pymc.Proofs.PooledStep
 /-!
 # Sequential pool: runs.  The state after the first `n` calls of a history `evs` from `s` is
-`(run cfg s (evs.take n)).1`; the observation of call number `i` (0-based) is `(run cfg s evs).2[i]?`.
+`(runT cfg s (evs.take n)).1`; the observation of call number `i` (0-based) is `(runT cfg s evs).2[i]?`.
 -/
 namespace Pooled
 
 variable {cfg : Cfg} {s : St}
 
-theorem run_cons_fst (now : Nat) (b : Body) (rest : List (Nat × Body)) :
-    (run cfg s ((now, b) :: rest)).1 = (run cfg (call cfg s now b).1 rest).1 := rfl
+theorem runT_cons_fst (now fin : Nat) (b : Body) (rest : List (Nat × Nat × Body)) :
+    (runT cfg s ((now, fin, b) :: rest)).1 = (runT cfg (callT cfg s now fin b).1 rest).1 := rfl
 
-theorem run_cons_snd (now : Nat) (b : Body) (rest : List (Nat × Body)) :
-    (run cfg s ((now, b) :: rest)).2 = (call cfg s now b).2 :: (run cfg (call cfg s now b).1 rest).2 := rfl
+theorem runT_cons_snd (now fin : Nat) (b : Body) (rest : List (Nat × Nat × Body)) :
+    (runT cfg s ((now, fin, b) :: rest)).2 = (callT cfg s now fin b).2 :: (runT cfg (callT cfg s now fin b).1 rest).2 := rfl
 
-theorem run_append_fst (a b : List (Nat × Body)) :
-    (run cfg s (a ++ b)).1 = (run cfg (run cfg s a).1 b).1 := by
+theorem runT_append_fst (a b : List (Nat × Nat × Body)) :
+    (runT cfg s (a ++ b)).1 = (runT cfg (runT cfg s a).1 b).1 := by
   induction a generalizing s with
   | nil => rfl
-  | cons e a ih => obtain ⟨now, bd⟩ := e; simp only [List.cons_append, run_cons_fst, ih]
+  | cons e a ih => obtain ⟨now, fin, bd⟩ := e; simp only [List.cons_append, runT_cons_fst, ih]
 
-theorem run_append_snd (a b : List (Nat × Body)) :
-    (run cfg s (a ++ b)).2 = (run cfg s a).2 ++ (run cfg (run cfg s a).1 b).2 := by
+theorem runT_append_snd (a b : List (Nat × Nat × Body)) :
+    (runT cfg s (a ++ b)).2 = (runT cfg s a).2 ++ (runT cfg (runT cfg s a).1 b).2 := by
   induction a generalizing s with
   | nil => rfl
   | cons e a ih =>
-    obtain ⟨now, bd⟩ := e
-    simp only [List.cons_append, run_cons_fst, run_cons_snd, ih]
+    obtain ⟨now, fin, bd⟩ := e
+    simp only [List.cons_append, runT_cons_fst, runT_cons_snd, ih]
 
-theorem run_length (evs : List (Nat × Body)) : (run cfg s evs).2.length = evs.length := by
+theorem runT_length (evs : List (Nat × Nat × Body)) : (runT cfg s evs).2.length = evs.length := by
   induction evs generalizing s with
   | nil => rfl
-  | cons e a ih => obtain ⟨now, bd⟩ := e; simp [run_cons_snd, ih]
+  | cons e a ih => obtain ⟨now, fin, bd⟩ := e; simp [runT_cons_snd, ih]
 
 /-- the state after `i+1` calls is the state after `i` calls followed by call number `i` -/
-theorem run_take_succ {evs : List (Nat × Body)} {i now : Nat} {b : Body} (h : evs[i]? = some (now, b)) :
-    (run cfg s (evs.take (i + 1))).1 = (call cfg (run cfg s (evs.take i)).1 now b).1 := by
-  rw [List.take_add_one, h, run_append_fst]
+theorem runT_take_succ {evs : List (Nat × Nat × Body)} {i now fin : Nat} {b : Body} (h : evs[i]? = some (now, fin, b)) :
+    (runT cfg s (evs.take (i + 1))).1 = (callT cfg (runT cfg s (evs.take i)).1 now fin b).1 := by
+  rw [List.take_add_one, h, runT_append_fst]
   rfl
 
 /-- past the end of the history nothing changes -/
-theorem run_take_none {evs : List (Nat × Body)} {i : Nat} (h : evs[i]? = none) :
-    (run cfg s (evs.take (i + 1))).1 = (run cfg s (evs.take i)).1 := by
+theorem runT_take_none {evs : List (Nat × Nat × Body)} {i : Nat} (h : evs[i]? = none) :
+    (runT cfg s (evs.take (i + 1))).1 = (runT cfg s (evs.take i)).1 := by
   rw [List.take_add_one, h]; simp
 
 /-- observation number `i` is the observation of call number `i` made from the state after `i` calls -/
-theorem run_obs {evs : List (Nat × Body)} {i now : Nat} {b : Body} (h : evs[i]? = some (now, b)) :
-    (run cfg s evs).2[i]? = some (call cfg (run cfg s (evs.take i)).1 now b).2 := by
+theorem runT_obs {evs : List (Nat × Nat × Body)} {i now fin : Nat} {b : Body} (h : evs[i]? = some (now, fin, b)) :
+    (runT cfg s evs).2[i]? = some (callT cfg (runT cfg s (evs.take i)).1 now fin b).2 := by
   induction evs generalizing s i with
   | nil => simp at h
   | cons e a ih =>
-    obtain ⟨now', bd⟩ := e
+    obtain ⟨now', fin', bd⟩ := e
     cases i with
     | zero =>
       simp only [List.getElem?_cons_zero, Option.some.injEq, Prod.mk.injEq] at h
-      obtain ⟨rfl, rfl⟩ := h
-      simp [run_cons_snd]; rfl
+      obtain ⟨rfl, rfl, rfl⟩ := h
+      simp [runT_cons_snd]; rfl
     | succ i =>
       simp only [List.getElem?_cons_succ] at h
-      simp only [run_cons_snd, List.getElem?_cons_succ, List.take_succ_cons, run_cons_fst]
+      simp only [runT_cons_snd, List.getElem?_cons_succ, List.take_succ_cons, runT_cons_fst]
       exact ih h
 
 /-- conversely every observation comes from an event -/
-theorem run_obs_inv {evs : List (Nat × Body)} {i : Nat} {o : CallObs} (h : (run cfg s evs).2[i]? = some o) :
-    ∃ now b, evs[i]? = some (now, b) ∧ o = (call cfg (run cfg s (evs.take i)).1 now b).2 := by
+theorem runT_obs_inv {evs : List (Nat × Nat × Body)} {i : Nat} {o : CallObs} (h : (runT cfg s evs).2[i]? = some o) :
+    ∃ now fin b, evs[i]? = some (now, fin, b) ∧ o = (callT cfg (runT cfg s (evs.take i)).1 now fin b).2 := by
   have hi : i < evs.length := by
     have := (List.getElem?_eq_some_iff.mp h).1
-    rwa [run_length] at this
-  have he : evs[i]? = some (evs[i].1, evs[i].2) := by simp [hi]
-  refine ⟨_, _, he, ?_⟩
-  rw [run_obs he] at h
+    rwa [runT_length] at this
+  have he : evs[i]? = some (evs[i].1, evs[i].2.1, evs[i].2.2) := by simp [hi]
+  refine ⟨_, _, _, he, ?_⟩
+  rw [runT_obs he] at h
   exact (Option.some.inj h).symm
 
-theorem inv_run (evs : List (Nat × Body)) (h : Inv s) : Inv (run cfg s evs).1 := by
+theorem inv_runT (evs : List (Nat × Nat × Body)) (h : Inv s) : Inv (runT cfg s evs).1 := by
   induction evs generalizing s with
   | nil => exact h
-  | cons e a ih => obtain ⟨now, bd⟩ := e; rw [run_cons_fst]; exact ih (inv_call now bd h)
+  | cons e a ih => obtain ⟨now, fin, bd⟩ := e; rw [runT_cons_fst]; exact ih (inv_callT now fin bd h)
 
-theorem inv_at (evs : List (Nat × Body)) (n : Nat) : Inv (run cfg {} (evs.take n)).1 :=
-  inv_run _ inv_init
+theorem inv_at (evs : List (Nat × Nat × Body)) (n : Nat) : Inv (runT cfg {} (evs.take n)).1 :=
+  inv_runT _ inv_init
 
 /-- `closed` only grows along a run -/
-theorem closed_mono (h : Inv s) (evs : List (Nat × Body)) {n m k : Nat} (hnm : n ≤ m)
-    (hk : k ∈ (run cfg s (evs.take n)).1.closed) : k ∈ (run cfg s (evs.take m)).1.closed := by
+theorem closed_mono (h : Inv s) (evs : List (Nat × Nat × Body)) {n m k : Nat} (hnm : n ≤ m)
+    (hk : k ∈ (runT cfg s (evs.take n)).1.closed) : k ∈ (runT cfg s (evs.take m)).1.closed := by
   induction hnm with
   | refl => exact hk
   | @step m _ ih =>
     cases he : evs[m]? with
-    | none => rw [run_take_none he]; exact ih
+    | none => rw [runT_take_none he]; exact ih
     | some e =>
-      obtain ⟨now, b⟩ := e
-      rw [run_take_succ he]
-      obtain ⟨l, hl⟩ := (call_facts (cfg := cfg) now b (inv_run (evs.take m) h)).1
+      obtain ⟨now, fin, b⟩ := e
+      rw [runT_take_succ he]
+      obtain ⟨l, hl⟩ := (callT_facts (cfg := cfg) now fin b (inv_runT (evs.take m) h)).1
       rw [hl]; exact List.mem_append_left _ ih
 
 /-- `nextConn` only grows along a run -/
-theorem nextConn_mono (h : Inv s) (evs : List (Nat × Body)) {n m : Nat} (hnm : n ≤ m) :
-    (run cfg s (evs.take n)).1.nextConn ≤ (run cfg s (evs.take m)).1.nextConn := by
+theorem nextConn_mono (h : Inv s) (evs : List (Nat × Nat × Body)) {n m : Nat} (hnm : n ≤ m) :
+    (runT cfg s (evs.take n)).1.nextConn ≤ (runT cfg s (evs.take m)).1.nextConn := by
   induction hnm with
   | refl => exact Nat.le_refl _
   | @step m _ ih =>
     cases he : evs[m]? with
-    | none => rw [run_take_none he]; exact ih
+    | none => rw [runT_take_none he]; exact ih
     | some e =>
-      obtain ⟨now, b⟩ := e
-      rw [run_take_succ he]
-      exact Nat.le_trans ih (call_facts (cfg := cfg) now b (inv_run (evs.take m) h)).2.1
+      obtain ⟨now, fin, b⟩ := e
+      rw [runT_take_succ he]
+      exact Nat.le_trans ih (callT_facts (cfg := cfg) now fin b (inv_runT (evs.take m) h)).2.1
 
 /-- a connection that is closed after `n` calls carries no later call -/
-theorem closed_never_io (h : Inv s) (evs : List (Nat × Body)) {n j k : Nat} (hnj : n ≤ j)
-    (hk : k ∈ (run cfg s (evs.take n)).1.closed) {o : CallObs} (ho : (run cfg s evs).2[j]? = some o) :
+theorem closed_never_io (h : Inv s) (evs : List (Nat × Nat × Body)) {n j k : Nat} (hnj : n ≤ j)
+    (hk : k ∈ (runT cfg s (evs.take n)).1.closed) {o : CallObs} (ho : (runT cfg s evs).2[j]? = some o) :
     o.io ≠ some k := by
-  obtain ⟨now, b, he, rfl⟩ := run_obs_inv ho
+  obtain ⟨now, fin, b, he, rfl⟩ := runT_obs_inv ho
   intro hio
-  exact (call_facts (cfg := cfg) now b (inv_run (evs.take j) h)).2.2.1 k hio (closed_mono h evs hnj hk)
+  exact (callT_facts (cfg := cfg) now fin b (inv_runT (evs.take j) h)).2.2.1 k hio (closed_mono h evs hnj hk)
+
+/-- an instantaneous call as a timed one -/
+def lift (e : Nat × Body) : Nat × Nat × Body := (e.1, e.1, e.2)
+
+theorem run_eq_runT (evs : List (Nat × Body)) : run cfg s evs = runT cfg s (evs.map lift) := by
+  induction evs generalizing s with
+  | nil => rfl
+  | cons e a ih =>
+    obtain ⟨now, b⟩ := e
+    simp only [run, runT, List.map_cons, lift, call, ih]
+
+theorem run_take_eq (evs : List (Nat × Body)) (n : Nat) :
+    run cfg s (evs.take n) = runT cfg s ((evs.map lift).take n) := by
+  rw [run_eq_runT, List.map_take]
+
+theorem lift_get {evs : List (Nat × Body)} {i now : Nat} {b : Body} (h : evs[i]? = some (now, b)) :
+    (evs.map lift)[i]? = some (now, now, b) := by
+  simp [h, lift]
 
 end Pooled
